@@ -21,7 +21,7 @@ Mirrored repairs in /repo (the model follows the repaired code):
 * f403263 (C16) `findOnDevice` visits the device groups in ascending id order;
 * e753b80 (C20) an empty address list sorts as "" (`firstAddr`);
 * 45199d8 (C20) a target rule naming a managed group the target does not define aborts (`abort`);
-* 271f0e7 `equalizeGroups` PATCHes the whole list when all old addresses would be removed.
+* ef10b0b `equalizeGroups` PATCHes the whole list when all old addresses would be removed.
 Sorting is a stable insertion sort (`isort`), as Go's `slices.SortFunc` for up to 12 elements.
 -/
 namespace NA.Nsx
@@ -266,7 +266,7 @@ def groupCalls (diff : Diff) (ga gb : Group) : List Call :=
   let d := toRemove.length
   let i := toAdd.length
   let o := ga.addrs.length
-  -- n < d  with  n = o - d + i;  or all old addresses would go (repair 271f0e7)
+  -- n < d  with  n = o - d + i;  or all old addresses would go (repair ef10b0b)
   if o + i < d + d || (d == o && 0 < d) then [.patchExpr ga.id ga.exprId gb.rtype gb.addrs]
   else
     (if toRemove.isEmpty then [] else [.postAddrs ga.id ga.exprId false toRemove]) ++
